@@ -98,6 +98,11 @@ func (p *parser) doExpression(rbp int) *token {
 	t := p.Token
 	p.Next()
 	left := getSymbol(t).Nud(p, t)
+	if left == nil {
+		// an empty statement (";") is complete: what follows starts the next statement
+		// and is not an operator applied to a missing left operand
+		return nil
+	}
 	for rbp < getSymbol(p.Token).Lbp && !slices.Contains(p.mask, p.Token.Symbol) {
 		t = p.Token
 		p.Next()
